@@ -10,7 +10,7 @@ from sim.model import Model, ModelError
 
 VIS = {"readout": 2.0, "microwave": 1.0, "flux": 1.0, "reset": 2.0}
 
-MUT_PROPS = {"NEW": ["C01", "C02"], "ADD_OP": ["C01", "C02"], "ADD_SUB": ["C05", "C02"], "COPY": ["C05"],
+MUT_PROPS = {"NEW": ["C01", "C02"], "ADD_OP": ["C01", "C02"], "ADD_OP_IN": ["C01", "C02"], "ADD_SUB": ["C05", "C02"], "COPY": ["C05"],
              "APPLY": ["C06"], "FLATTEN": ["C11"], "NEW_LIB": [], "SET_DUR": ["C03"], "SET_REP": ["C06"],
              "OVR_ENTER": ["C03", "C18"], "OVR_LEAVE": ["C03", "C18"], "SET_INIT": ["C18"]}
 OBS_PROPS = {"LIST": ["C02"], "LIST_TWICE": ["C02"], "TIMES": ["C01"], "DURATION": ["C04"], "COMPOSITES": ["C02"],
@@ -83,6 +83,28 @@ class Feed:
             self.touch(name, i)
             if st.get("rel") and st["rel"][0] == "JOINED_END":
                 self.probe("joined-end")
+        elif op == "ADD_OP_IN":
+            name = st["c"]
+            pl = ex.placements[-1]
+            ref = pl["ref_obj"]
+            impl = {"rt": pl["rt"], "key": pl.get("key")}
+            if ref is None:
+                impl["ref_key"] = None
+            elif ref == "multi":
+                impl["ref_key"] = None
+                impl["checked"] = False
+            else:
+                impl["ref_key"] = id(ref)
+                impl["ref_label"] = ["COMP", []] if observe.kind_of(ref) == "COMP" else observe.static_label(ref)
+            v = M.add_op_in(name, st, impl)
+            if not v.get("ok", True):
+                self.findings.append(oracles.F(["C01"], "placement", step=i, nested=True, **{k: x for k, x in v.items() if k != "ok"}))
+            for k in ("tie", "all_specific", "ambiguous"):
+                if v.get(k):
+                    self.probe("placement-" + k)
+            self.user_ops.add(id(M.roots[name]))
+            self.touch(name, i)
+            self.probe("add-into-nested-entry")
         elif op == "ADD_SUB":
             name, child = st["c"], st["child"]
             sp = ex.sub_placements.get(i)
@@ -244,7 +266,7 @@ def evaluate_point(desc, i, ansP, stats):
     exq, ansQ = driver.run_Q(steps, i)
     d = oracles.diff_answers(a, ansQ)
     if d:
-        props = ["C03"]
+        props = ["C03"] + (["C15"] if what == "OPENQL" else [])   # C15 itself promises repeatable names
         findings.append(oracles.F(props, "P!=Q", step=i, what=what, diff=d))
     # ---- Q*(i): full canonical observation + model
     alt = bool(desc.get("alt_baseline"))
@@ -261,7 +283,7 @@ def evaluate_point(desc, i, ansP, stats):
         own = full.get(what)
         d2 = oracles.diff_answers(ansQ, own) if own is not None else None
     if d2:
-        findings.append(oracles.F(["C03"], "Q!=Q*", step=i, what=what, diff=d2))
+        findings.append(oracles.F(["C03"] + (["C15"] if what == "OPENQL" else []), "Q!=Q*", step=i, what=what, diff=d2))
     for k, exc, msg in oracles.raised(full):
         if k in ("STIM", "OPENQL"):
             continue   # reported (and diagnosed) by the export oracles
@@ -280,6 +302,19 @@ def evaluate_point(desc, i, ansP, stats):
     findings.extend(oracles.c02_local(full, feed.leaf_entries.get(owner), owner))
     findings.extend(oracles.c01_local(full))
     findings.extend(oracles.c04_local(full))
+    # the same statements hold for what the perturbed execution itself reported at this point
+    if what == "TIMES" and isinstance(a, dict) and a.get("t") and a.get("dur") is not None:
+        want = max(x[2] for x in a["t"]) - min(x[1] for x in a["t"])
+        if a["dur"] != want:
+            findings.append(oracles.F(["C04"], "perturbed:circuit-duration!=span", got=a["dur"], want=want))
+        for x in a["t"]:
+            if x[2] != x[1] + x[3]:
+                findings.append(oracles.F(["C01"], "perturbed:end!=start+duration", start=x[1], end=x[2], dur=x[3]))
+                break
+    if what == "FULL" and isinstance(a, dict):
+        for f in oracles.c02_local(a, feed.leaf_entries.get(owner), owner) + oracles.c01_local(a) + oracles.c04_local(a):
+            f["oracle"] = "perturbed:" + f["oracle"]
+            findings.append(f)
     # model conformance
     if name not in M.ambiguous:
         try:
